@@ -289,6 +289,9 @@ def lifecycle_history(world, rnd, nops, disorder=0.0, reconf_cfgs=None, sync=Tru
                 ctrs[c] = "stopped"
         elif k < 0.80:
             cs = [c for c, s in ctrs.items() if s == "stopped"]
+            # a container that was created but never started is removed without a StopContainer event
+            if rnd.random() < 0.2:
+                cs = [c for c, s in ctrs.items() if s == "created"] or cs
             if cs:
                 c = rnd.choice(cs)
                 ops.append({"op": "Remove", "pod": pod_of[c], "c": c})
